@@ -81,6 +81,9 @@ func (fc *fileCtx) raceInstrument() {
 
 	writes := map[ast.Expr]bool{}
 	addrOf := map[ast.Expr]bool{}
+	// addrObjs: local struct variables whose address is taken somewhere (&e handed to a decoder, stored in
+	// a map, ...): once published their fields are as shared as those behind a pointer
+	addrObjs := map[types.Object]bool{}
 	atomics := map[ast.Expr]string{}
 
 	unparen := func(e ast.Expr) ast.Expr {
@@ -107,6 +110,12 @@ func (fc *fileCtx) raceInstrument() {
 		case *ast.UnaryExpr:
 			if v.Op == token.AND {
 				addrOf[unparen(v.X)] = true
+
+				if id, ok := unparen(v.X).(*ast.Ident); ok {
+					if obj := info.Uses[id]; obj != nil {
+						addrObjs[obj] = true
+					}
+				}
 			}
 		case *ast.CallExpr:
 			if sel, ok := v.Fun.(*ast.SelectorExpr); ok {
@@ -204,7 +213,10 @@ func (fc *fileCtx) raceInstrument() {
 			}
 
 			if !ptrToCacheStruct(typeOf(v.X)) {
-				return true
+				id, ok := unparen(v.X).(*ast.Ident)
+				if !ok || !addrObjs[info.Uses[id]] || info.TypeOf(v.X) == nil || !ptrToCacheStruct(types.NewPointer(info.TypeOf(v.X))) {
+					return true
+				}
 			}
 
 			if addrOf[v] {
